@@ -207,6 +207,12 @@ func genOp(g *gen.G, m *ref.Msg, kind string) prodOp {
 			op.Session = r.Intn(65536)
 		}
 		op.Sys = r.Bytes(r.Intn(9))
+		if m.Session >= 0 && r.Chance(1, 3) {
+			// stamp again with the same session id and fewer bytes that are a prefix of the current ones
+			// (a producer that compares before it copies must still pad with zeros)
+			op.Session = m.Session
+			op.Sys = append([]byte(nil), m.Sys[:r.Intn(4)]...)
+		}
 		return op
 	}
 	op := prodOp{Kind: "fill", Sub: map[string]ref.Val{}}
